@@ -117,6 +117,47 @@ theorem C04_statement_current (H : Bytes → Nat) (prog : List MemoFn)
     C04_statement_at H currentRecipe prog := by
   exact fun h hin => C04_isolation prog _ (C04_key_injective H prog hH hlang) h hin
 
+/-! #### open finding: one `macro_rules!` invocation defining the function twice in one module
+
+`SiteUnique` is a real restriction.  Inside a `macro_rules!` expansion `line!()` and `column!()` are
+those of the outermost invocation, so two `#[memo]` functions that one invocation puts into the same
+module (two impl blocks, say) see one module path, one line, one column; with identical signature
+texts the macro has nothing left to tell them apart.  Confirmed on the real crate by the harness
+(family `gen_m` of engine `samesig`, signature `same-signature-collision:macro-generated`). -/
+
+/-- `impl GA { #[memo] fn m }` and `impl GB { #[memo] fn m }` from one invocation at 46:1 -/
+def declG : FnDecl := { modulePath := [103], line := 46, col := 1, name := [109], sigText := sigF }
+def fnGA : MemoFn := ⟨declG, fun a => 40000 + a.sum⟩
+def fnGB : MemoFn := ⟨declG, fun a => 41000 + a.sum⟩
+
+/-- The program violates `SiteUnique`, its two functions get one key under EVERY recipe and hash, and
+the property's statement fails for the recipe in the source today: `GB::m` returns `GA::m`'s value. -/
+theorem C04_witness_macro_generated (H : Bytes → Nat) :
+    ¬ SiteUnique [fnGA, fnGB] ∧ (∀ r, keyOf H r fnGA.decl = keyOf H r fnGB.decl) ∧
+    ¬ C04_statement_at H currentRecipe [fnGA, fnGB] := by
+  have hne : fnGA ≠ fnGB := by
+    intro h
+    have := congrArg (fun f => f.body []) h
+    simp [fnGA, fnGB] at this
+  refine ⟨?_, fun _ => rfl, ?_⟩
+  · intro hu
+    exact hne (hu fnGA (by simp) fnGB (by simp) rfl rfl rfl)
+  · intro hst
+    have h := hst [(fnGA, []), (fnGB, [])] (by
+      intro c hc
+      simp only [List.mem_cons, List.not_mem_nil, or_false] at hc
+      rcases hc with rfl | rfl <;> simp)
+    rw [run_two_collide (keyOf H currentRecipe) fnGA fnGB [] rfl] at h
+    have h2 := congrArg (fun l => l.getD 1 0) h
+    simp [ownValues, fnGA, fnGB] at h2
+
+/-- What is proved of the current code: the full statement for every program whose functions have
+pairwise different definition sites (`C04_statement_current` under its two hypotheses). -/
+theorem C04_isolation_partial (H : Bytes → Nat) (prog : List MemoFn)
+    (hH : HashInjectiveOn H currentRecipe prog) (hlang : SiteUnique prog) :
+    C04_statement_at H currentRecipe prog := by
+  exact C04_statement_current H prog hH hlang
+
 /-! #### the `#[memo]` functions of this repository (regenerated by T4 on every run) -/
 
 /-- The key the model computes (from the real `DefaultHasher` value of the signature text; site text
